@@ -482,9 +482,9 @@ from elementpath.xpath31 import XPath31Parser             # noqa: E402
 
 CONS_PATTERNS = [r'b', r'a+', r'[0-9]+', r'(a)(c)?b', r'(\d+)(\.\d+)?', r'(a)|(b)', r'\s+', r',\s*', r'(ab)+', r'a.c', r'x|yz', r'(a(b))(c)?', r'[a-c-[b]]', r'\p{Lu}',
                  r'1.2', r'^a', r'c$', r'(a)\1', r'(?:a|b)c' if False else r'(a|b)c', r'A', r'a b', r'\.', r'(b)(?:)' if False else r'(b)', r'é+', r'[^,]+', r'-',
-                 r'(a)(b)(c)(d)(e)(f)(g)(h)(i)(j)\10', r'(a)(b)(c)(d)(e)(f)(g)(h)(i)\10', r'(a)(b)(c)(d)(e)(f)(g)(h)(i)(j)(k)(l)\11', r'(.)\1', r'(a*)b\1']
+                 r'(a)(b)(c)(d)(e)(f)(g)(h)(i)(j)\10', r'(a)(b)(c)(d)(e)(f)(g)(h)(i)\10', r'(a)(b)(c)(d)(e)(f)(g)(h)(i)(j)(k)(l)\11', r'(.)\1', r'(a*)b\1', r'<', r'&|b', r'(<)(b)?', r'\\']
 CONS_SUBJECTS = ['', 'abc', 'xabyz', 'a,b, c', 'aaa', '12.5 and 7', 'ab ab', 'x1\n2y', 'a\nc', 'ABC abc', 'abcdefghijj', 'abcdefghija0', 'abcdefghi1', 'abcdefghijklk',
-                 'aa', 'aba', 'aabaa', 'éé-e', ' a  b ', 'cabc', '1x2', 'a b', '-a-', 'abcdefghia0']
+                 'aa', 'aba', 'aabaa', 'éé-e', ' a  b ', 'cabc', '1x2', 'a b', '-a-', 'abcdefghia0', 'a<b&c>d', 'b\rb', '<a b="c">&amp;</a>', 'a\\b']
 CONS_FLAGS = ['', 's', 'i', 'm', 'x', 'si', 'q']
 INVALID = [r'(', r')', r'[', r'[]', r'a{2,1}', r'*a', r'a**', r'\p{Xx}', r'\p{IsNoSuchBlock}', r'[a-', r'\q', r'(?=a)', r'(?i)a', r'a{', r'[z-a]', r'\1', r'(a)\2', r'[[a]]',
            r'\p{L', r'a|*', r'+', r'[a-b-c]', r'\u0041', r'(?<n>a)', r'a{1,2,3}', r'\_']
@@ -520,7 +520,37 @@ def _python_oracle(p, flags, s):
     ngroups = len(re.findall(r'(?<!\\)\((?!\?)', p))
     p = re.sub(r'\\(\d)(\d)', lambda m: m.group(0) if int(m.group(1) + m.group(2)) <= ngroups else f'\\{m.group(1)}[{m.group(2)}]', p)
     p = re.sub(r'\$', r'(?!\\n)\\Z' if 'm' not in flags else '$', p)
+    if s is None:
+        return re.compile(p, f)
     return re.search(p, s, f) is not None
+
+
+def _spec_expand(repl, m, ngroups):
+    """F&O 5.6.4 fn:replace: \\\\ and \\$ are literal characters, $N is the N-th group where N is the longest prefix of the digits that does not exceed the number
+    of groups (further digits are literal); a single digit beyond the groups, and a group that did not participate, give the empty string"""
+    out, k = '', 0
+    while k < len(repl):
+        c = repl[k]
+        if c == '\\':
+            out += repl[k + 1]
+            k += 2
+        elif c == '$':
+            j = k + 1
+            while j < len(repl) and repl[j] in '0123456789':
+                j += 1
+            digits = repl[k + 1:j]
+            while len(digits) > 1 and int(digits) > ngroups:
+                digits = digits[:-1]
+            if int(digits) <= ngroups:
+                out += m.group(int(digits)) or ''
+            k += 1 + len(digits)
+        else:
+            out += c
+            k += 1
+    return out
+
+
+REPLACEMENTS = ['$1', '[$2]', '$10', '\\\\$0', '\\$0', '$1$1', '<$0>', '$3-$1', 'x', '', '$12$0']
 
 
 def function_consistency(tier, seed):
@@ -579,6 +609,26 @@ def function_consistency(tier, seed):
                     bad('tokenize is not the non-match parts of analyze-string', pattern=p, flags=fl, subject=s, got=got, want=toks)
                 if r[1] != s:
                     bad("replace with '$0' is not the identity", pattern=p, flags=fl, subject=s, got=r[1])
+                if 'q' not in fl and want is not None:
+                    try:
+                        rx = _python_oracle(p, fl, None)
+                    except re.error:
+                        rx = None
+                    for repl in (REPLACEMENTS if rx is not None else ()):
+                        n += 1
+                        expect = rx.sub(lambda mm: _spec_expand(repl, mm, rx.groups), s)
+                        g = _xp('replace($s, $p, $r, $f)', s=s, p=p, r=repl, f=fl)
+                        if g != ('ok', expect):
+                            kind = ('a group reference beyond the number of groups' if re.search(r'\$(\d+)', repl) and int(re.search(r'\$(\d+)', repl).group(1)) > rx.groups
+                                    else 'an escaped backslash or dollar sign' if '\\' in repl else 'group references')
+                            bad(f'replace does not expand the replacement string as F&O 5.6.4 defines ({kind})', pattern=p, flags=fl, subject=s, replacement=repl,
+                                got=repr(g)[:80], want=expect)
+                elif 'q' in fl:
+                    for repl in ('$1', '\\', 'a\\b$'):
+                        n += 1
+                        g = _xp('replace($s, $p, $r, $f)', s=s, p=p, r=repl, f=fl)
+                        if g != ('ok', s.replace(p, repl)):
+                            bad('replace with the q flag is not the literal substitution', pattern=p, subject=s, replacement=repl, got=repr(g)[:80], want=s.replace(p, repl))
     for p in INVALID:
         n += 1
         try:
